@@ -95,6 +95,8 @@ static std::string run(const Toks& t) {
   if (o == "varw") { auto a = vecs(t, 3); return F(VectorTools::var<double, double>(a.at(0), a.at(1), flag(t, 1), flag(t, 2))); }
   if (o == "corw") { auto a = vecs(t, 2); return F(VectorTools::cor<double, double>(a.at(0), a.at(1), a.at(2), flag(t, 1))); }
   if (o == "shannon") { auto a = vecs(t, 1); return F(VectorTools::shannon<double, double>(a.at(1), a.at(0).at(0))); }
+  if (o == "shannondisc") { auto a = vecs(t, 1); return F(VectorTools::shannonDiscrete<double, double>(a.at(1), a.at(0).at(0))); }
+  if (o == "midisc") { auto a = vecs(t, 1); return F(VectorTools::miDiscrete<double, double>(a.at(1), a.at(2), a.at(0).at(0))); }
   if (o == "seq") { return FV(VectorTools::seq<double>(hexToDouble(t.at(1)), hexToDouble(t.at(2)), hexToDouble(t.at(3)))); }
   // ---- set-like
   if (o == "unique") { auto a = vecs(t, 1); return FV(VectorTools::unique(a[0])); }
@@ -104,6 +106,7 @@ static std::string run(const Toks& t) {
   if (o == "union") { auto a = vecs(t, 1); return FV(VectorTools::vectorUnion(a.at(0), a.at(1))); }
   if (o == "inter") { auto a = vecs(t, 1); return FV(VectorTools::vectorIntersection(a.at(0), a.at(1))); }
   if (o == "diff") { auto a = vecs(t, 1); V x = a.at(0), y = a.at(1), z; VectorTools::diff(x, y, z); return FV(z); }
+  if (o == "containsall") { auto a = vecs(t, 1); V x = a.at(0), y = a.at(1); return B(VectorTools::containsAll(x, y)); }
   if (o == "havesame") { auto a = vecs(t, 1); const V& x = a.at(0); const V& y = a.at(1); return B(VectorTools::haveSameElements(x, y)); }
   // ---- log space
   if (o == "lse") { auto a = vecs(t, 1); return F(VectorTools::logSumExp(a[0])); }
